@@ -60,13 +60,18 @@ def make_op(C, opname):
     return C.operator(opname)
 
 
-CHILD_KINDS = ['Const', 'VariableIdentifierWrite', 'VariableIdentifierRead', 'FunctionIdentifier', 'Add', 'Assign', 'RootNode', 'Identical', 'TupleArgs', 'Literal']
+CHILD_KINDS = ['Const', 'VariableIdentifierWrite', 'VariableIdentifierRead', 'FunctionIdentifier', 'Add', 'Assign', 'RootNode', 'Identical', 'TupleArgs', 'Literal', 'TargetThenCall']
 # top-level function identifiers: a user name and builtin names whose calls a "smart" evaluator might special-case
 FUNCTION_NAMES = ['x', 'if', 'min', 'contains']
 
 
 def child_node(C, kind, i):
     leaf = lambda j: C.node(C.operator('Const', C.v_int(2000 + j)))
+    if kind == 'TargetThenCall':
+        # the shape of every assignment in source text: child 0 is the write target `v0` (a leaf that cannot fail and makes no call), the other
+        # children are opaque sub-expressions (recording calls natively) -- an evaluator that treats the target specially (reads it, or resolves it
+        # against the context, before the right-hand side was evaluated) shows up here and only here
+        kind = 'VariableIdentifierWrite' if i == 0 else 'Const'
     if kind in ('Const', 'Literal'):
         # 'Const' is realised natively as a recording call, 'Literal' as an identifier-free constant (or the failing constant expression 1/0)
         return C.node(C.operator('Const', C.v_int(1000 + i)))
@@ -105,7 +110,11 @@ def step_run(C, opname, k, mutable, kinds, child_kind='Const'):
             st.log.append(('child', -1, args[1] if len(args) > 1 else None))
             st.notes.append(('child', -1, tag, r_))
             return r_
-        tag, r = havoc_result(C, ex_, st, 'child%d' % idx, kinds)
+        if child_kind == 'TargetThenCall' and idx == 0:
+            # a write target evaluates to its own name and never fails (that is what Operator::eval does for it); every other child is havoc
+            tag, r = 'String', ok(C.v_str(sstr('v0')))
+        else:
+            tag, r = havoc_result(C, ex_, st, 'child%d' % idx, kinds)
         st.log.append(('child', idx, args[1] if len(args) > 1 else None))
         st.notes.append(('child', idx, tag, r))
         return r
@@ -434,6 +443,16 @@ def replay_ce(ce):
         for i in range(k):
             funcs.pop('c%d' % i, None)
         want_log = wl
+    elif ck == 'TargetThenCall':
+        # child 0 is the (unbound) write target `v0`: no call, never fails; the reference still evaluates every later child in order
+        funcs.pop('c0', None)
+        want_log = []
+        failed = False
+        for i in range(1, k):
+            want_log.append('c%d' % i)
+            if funcs.get('c%d' % i) == 'fail':
+                failed = True
+                break
     leaf_fail = None
     ck_arg = ce.get('child_kind', 'Const')
     lit_fail = None
